@@ -25,7 +25,7 @@ ASSUMPTIONS = [
     "real UDP transport and the 1024-byte datagram limit are out of scope here (codec: C17)",
 ]
 TIERS = {
-    "quick": {"cases": 8000, "shards": 16, "max_ops": 50},
+    "quick": {"cases": 4800, "shards": 16, "max_ops": 50},
     "thorough": {"cases": 320000, "shards": 16, "max_ops": 80},
 }
 MANIFEST = {
@@ -53,6 +53,8 @@ def _tags(m) -> list[str]:
               "stale_jobs", "pageouts_done", "pageins_done", "persistent_unsatisfied"):
         if s[k]:
             t.append(k)
+    if m.via_server:
+        t.append("via_server_handler")
     return t
 
 
